@@ -310,6 +310,11 @@ func init() {
 			}
 			return Scalar{t}
 		},
+		// trunc(x): the integer part of the floating-point value x (what a conversion to a wide enough
+		// integer type gives)
+		"trunc": func(e *Env, args []ast.Expr) Value {
+			return Scalar{UF("f2i", SInt, e.toTerm(e.eval(args[0])))}
+		},
 		// contains(a, b): string b occurs in string a
 		"contains": func(e *Env, args []ast.Expr) Value {
 			a := e.toTerm(e.eval(args[0]))
